@@ -17,6 +17,7 @@ pub fn def() -> PropDef {
                 cases_quick: 30_000,
                 cases_thorough: 150_000,
                 max_shrink_iters: 2000,
+                limit_factor: 1,
                 strategy: ser_hll::case_strategy,
                 check: ser_hll::roundtrip,
             }),
@@ -26,6 +27,7 @@ pub fn def() -> PropDef {
                 cases_quick: 200_000,
                 cases_thorough: 600_000,
                 max_shrink_iters: 2000,
+                limit_factor: 1,
                 strategy: ser_theta::case_strategy,
                 check: ser_theta::roundtrip,
             }),
@@ -35,6 +37,7 @@ pub fn def() -> PropDef {
                 cases_quick: 30_000,
                 cases_thorough: 120_000,
                 max_shrink_iters: 1000,
+                limit_factor: 1,
                 strategy: ser_misc::cpc_case,
                 check: ser_misc::cpc_roundtrip,
             }),
@@ -44,6 +47,7 @@ pub fn def() -> PropDef {
                 cases_quick: 60_000,
                 cases_thorough: 150_000,
                 max_shrink_iters: 2000,
+                limit_factor: 1,
                 strategy: ser_misc::fi_case,
                 check: ser_misc::fi_roundtrip,
             }),
@@ -53,6 +57,7 @@ pub fn def() -> PropDef {
                 cases_quick: 60_000,
                 cases_thorough: 150_000,
                 max_shrink_iters: 1000,
+                limit_factor: 1,
                 strategy: ser_misc::td_case,
                 check: ser_misc::td_roundtrip,
             }),
@@ -62,6 +67,7 @@ pub fn def() -> PropDef {
                 cases_quick: 60_000,
                 cases_thorough: 150_000,
                 max_shrink_iters: 1000,
+                limit_factor: 1,
                 strategy: c08::case_strategy,
                 check: ser_misc::cm_roundtrip,
             }),
@@ -71,6 +77,7 @@ pub fn def() -> PropDef {
                 cases_quick: 60_000,
                 cases_thorough: 150_000,
                 max_shrink_iters: 1000,
+                limit_factor: 1,
                 strategy: c09::case_strategy,
                 check: ser_misc::bloom_roundtrip,
             }),
